@@ -78,12 +78,24 @@ def run(ctx):
         ctx.tlc("Collections", open(os.path.join(spec_dir(), "MC_Collections.cfg")).read().replace('Bug = "none"', 'Bug = "%s"' % bug),
                 what="Bug_%s" % bug, expect_violation=inv, count=False, timeout=600)
     ctx.stage("generate")
-    gen = wbcheck.cfg(names=["t1", "T2", "X", "x", "N0"], maxr=1, maxc=1, maxt=3, maxs=3, depth=3 if q else 4, vals=("a",), counts=(1,),
+    gen = wbcheck.cfg(names=["t1", "T2", "t2", "X", "x", "N0"], maxr=1, maxc=1, maxt=3, maxs=3, depth=3 if q else 4, vals=("a",), counts=(1,),
                       defaults=("e",), ops=["addtable", "addsheet", "rename", "save", "open"], view=False, props=False)
     hist, nstates = wbcheck.histories_from_dump(ctx, gen, "Gen_Workbook[collections]")
     rng = random.Random(ctx.seed + 19)
     if q and len(hist) > 500:
-        hist = rng.sample(hist, 500)
+        # always keep the histories in which an automatic name is chosen while a case variant of a generated name exists
+        def auto_after_variant(h):
+            seen = False
+            for o in h[0]:
+                if o.get("nm") in ("t1", "t2", "t3"):
+                    seen = True
+                elif seen and o.get("nm") == "AUTO":
+                    return True
+            return False
+        must = [h for h in hist if auto_after_variant(h)]
+        must = must if len(must) <= 200 else rng.sample(must, 200)
+        rest = [h for h in hist if not auto_after_variant(h)]
+        hist = must + rng.sample(rest, min(len(rest), 500 - len(must)))
     sim = wbcheck.histories_from_simulation(
         ctx, wbcheck.cfg(names=NAMES, maxr=1, maxc=1, maxt=6, maxs=6, depth=16, vals=("a",), counts=(1,), defaults=("e",),
                          ops=["addtable", "addsheet", "rename", "save", "open"], view=False, props=False),
